@@ -207,6 +207,14 @@ def case_strategy():
             "ctor": st.tuples(st.lists(pairs(), max_size=3), pairs(3)).map(list),
             "steps": steps(),
             "void": st.booleans(),
+            # the element the attributes sit on: escaping is a property of the attribute writer, whatever the element
+            "elem": st.one_of(
+                st.none(),
+                st.none(),
+                st.sampled_from(["script", "style", "textarea", "pre", "title", "svg", "a", "option", "template", "br", "meta", "link", "body", "html", "head"]),
+                st.sampled_from(gen.catalogue_names()),
+                gen.CUSTOM_NAME,
+            ).filter(lambda n: n is None or not ("div".startswith(n) or "span".startswith(n))),
             "wrap": st.integers(0, 2),
             "kid": st.booleans(),
             "prior": st.booleans(),
@@ -266,7 +274,7 @@ def run_history(case):
     dicts, kw = case["ctor"]
     dicts = [dict_pairs(d) for d in dicts]
     kw = _kw(kw)
-    name = "input" if case["void"] else TARGET
+    name = case.get("elem") or ("input" if case["void"] else TARGET)
     kids = ["k"] if case["kid"] else []
     tag = h.Tag(name, *[{r: val_obj(v) for r, v in d} for d in dicts], *kids, **{r: val_obj(v) for r, v in kw})
     merge_call(model, [p for d in dicts for p in d] + kw)
@@ -398,6 +406,8 @@ def body_history(case, note):
         "benign-readback" if benign else "",
         "attrs>=3" if len(model) >= 3 else "",
         "prior-text-render" if case.get("prior") else "",
+        "on-raw-text-element" if name.lower() in ("script", "style") else "",
+        "on-other-element" if case.get("elem") else "",
     )
 
 
@@ -428,7 +438,7 @@ CLAUSES = [
         quick=1500,
         thorough=20000,
         shards_quick=4,
-        required=("merged-plain-x-html-with-metachar", "op:update", "op:set", "op:add_class", "op:add_style", "benign-readback", "prior-text-render"),
+        required=("merged-plain-x-html-with-metachar", "op:update", "op:set", "op:add_class", "op:add_style", "benign-readback", "prior-text-render", "on-raw-text-element", "on-other-element"),
         rule="a plain part with a metacharacter",
         fuzz=60000,
     ),
